@@ -170,6 +170,9 @@ class ModelEval(Evaluator):
                     return Marker("pkg", m)
                 if a == "__name__":
                     return base.data[0].name
+                found, val = self.class_attr(base.data[0], a)
+                if found:
+                    return val
                 if a == "__new__":
                     # object.__new__ (the package defines no __new__ of its own: method() found none): a bare instance
                     return Marker("pyfunc", lambda c, *args, **kw: PyObj(c.data[0]) if isinstance(c, Marker) and c.kind == "pkg" else (_ for _ in ()).throw(Unsupported("__new__ of %r" % (c,))))
@@ -890,12 +893,24 @@ class ModelEval(Evaluator):
         if h.type is None:
             return None
         out = []
-        for e in (h.type.elts if isinstance(h.type, ast.Tuple) else [h.type]):
-            v = self.ev(e)
-            if isinstance(v, Marker) and v.kind == "exc":
+
+        def add(v, e):
+            if isinstance(v, (tuple, list)):
+                # `except <expression>` where the expression evaluates to a tuple of classes (possibly empty: catches nothing)
+                for x in v:
+                    add(x, None)
+            elif isinstance(v, Marker) and v.kind == "exc":
                 out.append(v.data[0])
-            else:
+            elif isinstance(v, Marker) and v.kind == "ext":
+                out.append(v.data[0].split(".")[-1])
+            elif isinstance(v, Marker) and v.kind == "pkg" and hasattr(v.data[0], "name"):
+                out.append(v.data[0].name)
+            elif e is not None:
                 out.append(norm(e).split(".")[-1])
+            else:
+                raise Unsupported("exception class %r in an except clause" % (v,))
+        for e in (h.type.elts if isinstance(h.type, ast.Tuple) else [h.type]):
+            add(self.ev(e), e)
         return out
 
     def assign(self, t, v):
